@@ -26,6 +26,8 @@ def floors(tier):
 def cases(tier, seed):
     for name in TARGET_NAMES:
         yield {"targeted": name}
+    for name in planaudit.sk_names():
+        yield {"targeted": name}
     profiles = ["default", "projection", "default", "structure", "blockwise", "filter"]
     for i in range(CONFIG[tier]["programs"]):
         yield {"gen": [seed, i], "profile": profiles[i % len(profiles)]}
